@@ -1591,6 +1591,10 @@ func runC13(a vh.Args, o *vh.Oracle, r *vh.Result) error {
 			return c13CheckStream(a, o, r, &c, 0)
 		case "fanout":
 			return c13CheckFanout(a, r, &c, 0)
+		case "deep":
+			return c13CheckDeep(a, r, &c, 0)
+		case "stdout":
+			return c13CheckStdout(a, r, &c, 0)
 		case "fault":
 			mode := c.Mode
 			if mode == "cli-fsize" {
@@ -1744,7 +1748,10 @@ func runC13(a vh.Args, o *vh.Oracle, r *vh.Result) error {
 	if err := c13RunStreams(a, o, r, rng.Fork(), thorough); err != nil {
 		return err
 	}
-	r.Note("streams done after %.1fs", time.Since(t0).Seconds())
+	if err := c13RunSourceCases(a, r, rng.Fork(), thorough); err != nil {
+		return err
+	}
+	r.Note("streams, source faults, stdout done after %.1fs", time.Since(t0).Seconds())
 	if err := c13RunFanouts(a, r, rng.Fork(), thorough); err != nil {
 		return err
 	}
